@@ -560,7 +560,7 @@ func raceCanary() {
 }
 
 func runC17(c *ctx) {
-	c.Rule = "race-detector build of a multi-goroutine driver: a pool of 200 shared objects (templates with variables and ellipses, messages, control messages, encoded byte strings, SML texts, shared fill maps) whose sequential reference results are computed afterwards on independently constructed twins (nothing is asked of a shared object before the concurrent phase, so lazily initialised state is first touched under concurrency); 32 (thorough 64) goroutines hammer a few hot objects per round with String, ToBytes, Variables, Size, Header, SystemBytes, FillVariables (shared read-only map and private maps), ellipsis expansion, SetWaitBit, SetSessionIDAndSystemBytes, Type, response constructors, hsms.Parse of shared buffers (one nested 600 lists deep that all goroutines decode at the same moment, one with 3600 items) and sml.Parse (incl. a 60-row text), a set of 13 constructor/fill calls and 7 texts that must be refused alone and in company, with Gosched jitter; every round starts with barrages (the big list, the deep nest, two long float arrays, then a walk over the whole pool in the same order by everybody, so that first touches coincide) and the hot set always holds templates with shared count and fill maps and complete messages; every 32nd operation builds, prints, expands, parses and fills an object whose variable names the process has never seen (checked against the model); 4 (thorough 15) rounds with different seeds. Oracle: no WARNING: DATA RACE block in the race log whose stacks include a frame of the library, and every call returns what the same call returned in the sequential pre-pass; a deliberately racy canary must be reported or the run is inconclusive. Also (rounds 5-8): shared texts with blanks inside size brackets, shared count maps asking for 300 and 617 repetitions, two shared float arrays of 17000/20000 values, refusals at the item size limit, every caller clears the slices Parse returned, and in the first-touch walk every message gets its first encoding and first derivations from all goroutines; violations printed before the driver runs out of time stand. non-trivial = a call that started while another goroutine's call on the same object was in flight; distinct by (operation, object, round) Also (round 10): three texts that make a factory of package ast panic inside the parser (the parser's recover path) are hot in every round; the long float arrays hold values single precision cannot hold exactly."
+	c.Rule = "race-detector build of a multi-goroutine driver: a pool of 200 shared objects (templates with variables and ellipses, messages, control messages, encoded byte strings, SML texts, shared fill maps) whose sequential reference results are computed afterwards on independently constructed twins (nothing is asked of a shared object before the concurrent phase, so lazily initialised state is first touched under concurrency); 32 (thorough 64) goroutines hammer a few hot objects per round with String, ToBytes, Variables, Size, Header, SystemBytes, FillVariables (shared read-only map and private maps), ellipsis expansion, SetWaitBit, SetSessionIDAndSystemBytes, Type, response constructors, hsms.Parse of shared buffers (one nested 600 lists deep that all goroutines decode at the same moment, one with 3600 items) and sml.Parse (incl. a 60-row text), a set of 13 constructor/fill calls and 7 texts that must be refused alone and in company, with Gosched jitter; every round starts with barrages (the big list, the deep nest, two long float arrays, then a walk over the whole pool in the same order by everybody, so that first touches coincide) and the hot set always holds templates with shared count and fill maps and complete messages; every 32nd operation builds, prints, expands, parses and fills an object whose variable names the process has never seen (checked against the model); 4 (thorough 15) rounds with different seeds. Oracle: no WARNING: DATA RACE block in the race log whose stacks include a frame of the library, and every call returns what the same call returned in the sequential pre-pass; a deliberately racy canary must be reported or the run is inconclusive. Also (rounds 5-8): shared texts with blanks inside size brackets, shared count maps asking for 300 and 617 repetitions, two shared float arrays of 17000/20000 values, refusals at the item size limit, every caller clears the slices Parse returned, and in the first-touch walk every message gets its first encoding and first derivations from all goroutines; violations printed before the driver runs out of time stand. non-trivial = a call that started while another goroutine's call on the same object was in flight; distinct by (operation, object, round) Also (round 10): three texts that make a factory of package ast panic inside the parser (the parser's recover path) are hot in every round; the long float arrays hold values single precision cannot hold exactly; at the start of every round ten kinds of untouched objects (F4/F8 arrays of inexact float64 values alone, in lists, in templates and messages, integer arrays from mixed Go types, a 300-element list) are each first called by eight bare goroutines released together by a spin barrier, with nothing between the release and the call."
 	c.Assume = []string{"the race detector judges the executions that happened, not all interleavings", "GORACE log_path is set by bin/check"}
 
 	logPrefix := ""
@@ -584,6 +584,7 @@ func runC17(c *ctx) {
 		seed := c.rnd.U64()
 		r := rng.New(seed)
 		pool := buildPool(r, 200)
+		calls += c17FreshBarrage(c, round, seed)
 		// few hot objects per round so that the same object is hit concurrently
 		hot := make([]*sharedObj, 0, 20)
 		for _, i := range r.Perm(len(pool))[:12] {
@@ -904,7 +905,7 @@ func runC17(c *ctx) {
 		c.Violation("C17/data-race/"+key, "race detector report: "+clipS(strings.TrimSpace(blk)), c17Case{Note: blk})
 	}
 	c.Sample(map[string]interface{}{"rounds": rounds, "goroutines": goroutines, "ops_per_goroutine": opsPer, "calls": calls, "overlapping_calls": overlapping, "race_blocks": blocks, "canary_reported": canarySeen})
-	c.Required = []string{"canary-reported", "calls-overlapping-on-the-same-object", "operations-compared-with-sequential-twin", "fresh-name-constructions-under-concurrency"}
+	c.Required = []string{"fresh-objects-first-called-by-eight-goroutines-at-once", "canary-reported", "calls-overlapping-on-the-same-object", "operations-compared-with-sequential-twin", "fresh-name-constructions-under-concurrency"}
 }
 
 // c17Parent re-executes this binary as the child that does the work and interprets how it ended.
